@@ -449,7 +449,9 @@ def _fail_if_group_variables_not_constant_within_groups(data):
     for name, col in data.items():
         for level in exogenous_groupings:
             if name.endswith(f"_{level}"):
-                max_value = col.groupby(data[f"{level}_id"]).transform("max")
+                # Group by position (as everywhere else), not by index label: the columns
+                # of a dict of Series may carry different indexes.
+                max_value = col.groupby(data[f"{level}_id"].to_numpy()).transform("max")
                 if not (max_value == col).all():
                     message = format_errors_and_warnings(
                         f"""
